@@ -5,6 +5,7 @@ import (
 	"context"
 	"encoding/json"
 	"fmt"
+	"math"
 	"unicode/utf8"
 
 	"github.com/risor-io/risor/errz"
@@ -444,6 +445,13 @@ func (b *ByteSlice) Repeat(obj Object) Object {
 	count, err := AsInt(obj)
 	if err != nil {
 		return err
+	}
+	// bytes.Repeat panics on these
+	if count < 0 {
+		return Errorf("value error: byte_slice.repeat count must not be negative (%d given)", count)
+	}
+	if len(b.value) > 0 && count > int64(math.MaxInt/len(b.value)) {
+		return Errorf("value error: byte_slice.repeat result is too large")
 	}
 	return NewByteSlice(bytes.Repeat(b.value, int(count)))
 }
